@@ -6,9 +6,16 @@
 //   fn <kind> <n> {<name> <value> <prec> <con>}*n poly <m> {<coef> <e_1> .. <e_n>}*m
 //        kind 0: Function, 1: FirstOrderDerivable, 2: SecondOrderDerivable
 //        con  : N | I <lo|*> <hi|*> <inclLo> <inclHi>
-//   wrap <2|3|5> <h>
+//   wrap <2|3|5> <h|D>                     constructor by kind, then setInterval(h) (D: the default step is kept)
+//   interval <h>                           setInterval; answers r=<getInterval()>
 //   vars <k> <name>*k                      setParametersToDerivate
-//   enable <d1> <d2> <cross>
+//   enable <d1> <d2> <cross>               the three switches; answers r=<the three getters>
+//   en1|en2|enx <0|1>                      one switch alone; answers r=<the three getters>
+//   fnenable <d1> <d2>                     the wrapped function's own analytical-derivative switches (no wrapper)
+//   copy | assign                          the wrapper is replaced by a copy of itself (copy constructor / operator=
+//                                          into a freshly constructed wrapper of the same wrapped function)
+//   df <var> <list> ; d2f <var> <list> ; d2fx <var1> <var2> <list>
+//                                          FirstOrderDerivable::df, SecondOrderDerivable::d2f (1 and 2 variables)
 //   set|setall|setvals|match|f <k> {<name> <value> <prec> <con>}*k      entry points
 //   setone <name> <value>
 //   get d1|d2 <name> ;  get dx <name> <name>
@@ -16,7 +23,8 @@
 //
 // Answer of an entry point:
 //   <ok|exc:kind> r=<result|-> v=<wrapper value> fv=<function value> P <values> D1 <..> D2 <..>
-//   X <rows> E <en1> <en2> L <npoints> <coordinates>
+//   X <rows> WP <values seen through the wrapper's getParameters()> <hasParameter of all names> <number of parameters>
+//   E <en1> <en2> L <npoints> <coordinates>
 #include "common.h"
 #include <Bpp/Numeric/Function/TwoPointsNumericalDerivative.h>
 #include <Bpp/Numeric/Function/ThreePointsNumericalDerivative.h>
@@ -130,13 +138,17 @@ public:
 
 // ---------------------------------------------------------------- wrappers with readable caches
 struct Peek { virtual ~Peek() {} virtual const std::vector<double>& d1() const = 0; virtual const std::vector<double>& d2() const = 0;
-              virtual const RowMatrix<double>& x() const = 0; virtual AbstractNumericalDerivative& w() = 0; };
+              virtual const RowMatrix<double>& x() const = 0; virtual AbstractNumericalDerivative& w() = 0;
+              virtual Peek* copy() const = 0; virtual void assignTo(Peek& fresh) const = 0; };
 template<class B> struct PeekT : B, Peek {
   template<class F> PeekT(std::shared_ptr<F> f) : B(f) {}
   const std::vector<double>& d1() const override { return this->der1_; }
   const std::vector<double>& d2() const override { return this->der2_; }
   const RowMatrix<double>& x() const override { return this->crossDer2_; }
   AbstractNumericalDerivative& w() override { return *this; }
+  // the copy constructor / assignment operator of the scheme (and of AbstractNumericalDerivative under it)
+  Peek* copy() const override { return new PeekT<B>(*this); }
+  void assignTo(Peek& fresh) const override { static_cast<B&>(dynamic_cast<PeekT<B>&>(fresh)) = static_cast<const B&>(*this); }
 };
 
 // ---------------------------------------------------------------- the machine
@@ -145,6 +157,7 @@ struct Machine {
   std::shared_ptr<PolyFn> fn;
   std::unique_ptr<Peek> wr;
   int kind = 0;
+  int scheme = 0;
   size_t nvars = 0;
 
   static std::shared_ptr<ConstraintInterface> con(const Toks& t, size_t& i) {
@@ -165,6 +178,16 @@ struct Machine {
     for (size_t j = 0; j < k; ++j) { std::unique_ptr<Parameter> p(param(t, i)); pl.addParameter(*p); }
     return pl;
   }
+  // a freshly constructed wrapper of the current scheme around the current function (constructor chosen by kind)
+  Peek* fresh() {
+    int s = scheme;
+    auto f1 = std::dynamic_pointer_cast<PolyFn1>(fn); auto f2 = std::dynamic_pointer_cast<PolyFn2>(fn);
+    std::shared_ptr<FunctionInterface> f0 = fn;
+    std::shared_ptr<FirstOrderDerivable> g1 = f1; std::shared_ptr<SecondOrderDerivable> g2 = f2;
+    if (s == 2) { if (kind >= 1) return new PeekT<TwoPointsNumericalDerivative>(g1); return new PeekT<TwoPointsNumericalDerivative>(f0); }
+    if (s == 3) { if (kind >= 2) return new PeekT<ThreePointsNumericalDerivative>(g2); if (kind == 1) return new PeekT<ThreePointsNumericalDerivative>(g1); return new PeekT<ThreePointsNumericalDerivative>(f0); }
+    if (kind >= 2) return new PeekT<FivePointsNumericalDerivative>(g2); if (kind == 1) return new PeekT<FivePointsNumericalDerivative>(g1); return new PeekT<FivePointsNumericalDerivative>(f0);
+  }
   std::string logStr() {
     std::string s = "L " + std::to_string(log.size());
     for (auto& pt : log) for (double d : pt) s += " " + num(d);
@@ -179,6 +202,12 @@ struct Machine {
       s += " D2"; for (double d : wr->d2()) s += " " + num(d);
       s += " X";
       for (size_t i = 0; i < wr->x().getNumberOfRows(); ++i) for (size_t j = 0; j < wr->x().getNumberOfColumns(); ++j) s += " " + num(wr->x()(i, j));
+      // the wrapped function seen through the wrapper (FunctionWrapper forwards)
+      s += " WP";
+      const ParameterList& wp = wr->w().getParameters();
+      for (size_t i = 0; i < wp.size(); ++i) s += " " + num(wr->w().getParameterValue(wp[i].getName()));
+      bool all = true; for (size_t i = 0; i < wp.size(); ++i) all = all && wr->w().hasParameter(wp[i].getName());
+      s += std::string(" ") + (all ? "1" : "0") + " " + std::to_string(wr->w().getNumberOfParameters());
     }
     s += std::string(" E ") + (fn->en1() ? "1" : "0") + " " + (fn->en2() ? "1" : "0") + " " + logStr();
     return s;
@@ -211,23 +240,27 @@ struct Machine {
     }
     if (!fn) return "bad-op";
     if (o == "wrap") {
-      int s = (int)toI(t.at(i++)); double h = hexToDouble(t.at(i++));
-      auto f1 = std::dynamic_pointer_cast<PolyFn1>(fn); auto f2 = std::dynamic_pointer_cast<PolyFn2>(fn);
-      std::shared_ptr<FunctionInterface> f0 = fn;
-      std::shared_ptr<FirstOrderDerivable> g1 = f1; std::shared_ptr<SecondOrderDerivable> g2 = f2;
-      if (s == 2) { if (kind >= 1) wr.reset(new PeekT<TwoPointsNumericalDerivative>(g1)); else wr.reset(new PeekT<TwoPointsNumericalDerivative>(f0)); }
-      else if (s == 3) { if (kind >= 2) wr.reset(new PeekT<ThreePointsNumericalDerivative>(g2)); else if (kind == 1) wr.reset(new PeekT<ThreePointsNumericalDerivative>(g1)); else wr.reset(new PeekT<ThreePointsNumericalDerivative>(f0)); }
-      else { if (kind >= 2) wr.reset(new PeekT<FivePointsNumericalDerivative>(g2)); else if (kind == 1) wr.reset(new PeekT<FivePointsNumericalDerivative>(g1)); else wr.reset(new PeekT<FivePointsNumericalDerivative>(f0)); }
-      wr->w().setInterval(h);
-      return "ok r=-" + state();
+      int s = (int)toI(t.at(i++)); bool dflt = t.at(i) == "D"; double h = dflt ? 0. : hexToDouble(t.at(i)); i++; scheme = s;
+      wr.reset(fresh());
+      if (!dflt) wr->w().setInterval(h);
+      return "ok r=" + num(wr->w().getInterval()) + state();
     }
     if (o == "fnset") {
       ParameterList pl = plist(t, i);
       std::string a = guarded([&]() { fn->setParameters(pl); return std::string("-"); });
       return a + state();
     }
+    if (o == "fnenable") {
+      auto f1 = std::dynamic_pointer_cast<PolyFn1>(fn); auto f2 = std::dynamic_pointer_cast<PolyFn2>(fn);
+      if (f1) f1->enableFirstOrderDerivatives(t.at(1) == "1");
+      if (f2) f2->enableSecondOrderDerivatives(t.at(2) == "1");
+      return "ok r=-" + state();
+    }
     if (!wr) return "bad-op";
+    if (o == "copy") { wr.reset(wr->copy()); return "ok r=-" + state(); }
+    if (o == "assign") { std::unique_ptr<Peek> f(fresh()); wr->assignTo(*f); wr = std::move(f); return "ok r=-" + state(); }
     AbstractNumericalDerivative& w = wr->w();
+    if (o == "interval") { w.setInterval(hexToDouble(t.at(1))); return "ok r=" + num(w.getInterval()) + state(); }
     if (o == "vars") {
       size_t k = toU(t.at(i++)); std::vector<std::string> v; for (size_t j = 0; j < k; ++j) v.push_back(pname(t.at(i++)));
       w.setParametersToDerivate(v);
@@ -235,7 +268,9 @@ struct Machine {
     }
     if (o == "enable") {
       w.enableFirstOrderDerivatives(t.at(1) == "1"); w.enableSecondOrderDerivatives(t.at(2) == "1"); w.enableSecondOrderCrossDerivatives(t.at(3) == "1");
-      return "ok r=-" + state();
+      const AbstractNumericalDerivative& cw = w;
+      return std::string("ok r=") + (cw.enableFirstOrderDerivatives() ? "1" : "0") + (cw.enableSecondOrderDerivatives() ? "1" : "0")
+        + (cw.enableSecondOrderCrossDerivatives() ? "1" : "0") + state();
     }
     if (o == "set" || o == "setall" || o == "setvals" || o == "match" || o == "f") {
       ParameterList pl = plist(t, i);
@@ -252,6 +287,23 @@ struct Machine {
       std::string n = pname(t.at(i++)); double v = hexToDouble(t.at(i++));
       std::string a = guarded([&]() { w.setParameterValue(n, v); return std::string("-"); });
       return a + state();
+    }
+    if (o == "df" || o == "d2f" || o == "d2fx") {
+      std::string v1 = pname(t.at(i++)); std::string v2 = o == "d2fx" ? pname(t.at(i++)) : std::string();
+      ParameterList pl = plist(t, i);
+      std::string a = guarded([&]() -> std::string {
+        if (o == "df") return num(w.df(v1, pl));
+        if (o == "d2f") return num(w.d2f(v1, pl));
+        return num(w.d2f(v1, v2, pl));
+      });
+      return a + state();
+    }
+    if (o == "en1" || o == "en2" || o == "enx") {   // one switch alone; answers the three getters
+      bool yn = t.at(1) == "1";
+      if (o == "en1") w.enableFirstOrderDerivatives(yn); else if (o == "en2") w.enableSecondOrderDerivatives(yn); else w.enableSecondOrderCrossDerivatives(yn);
+      const AbstractNumericalDerivative& cw = w;
+      return std::string("ok r=") + (cw.enableFirstOrderDerivatives() ? "1" : "0") + (cw.enableSecondOrderDerivatives() ? "1" : "0")
+        + (cw.enableSecondOrderCrossDerivatives() ? "1" : "0") + state();
     }
     if (o == "get") {
       std::string what = t.at(i++);
